@@ -272,10 +272,10 @@ def _ascii_loose_uri(s, pattern=False):
     left to C08Uri)"""
     if type(s) is not str:
         return False
-    if any(ord(c) > 126 or ord(c) < 33 for c in s):
-        return None if not any(c in " \t#" for c in s) else False
-    if "#" in s:
-        return False
+    if any(ord(c) < 33 or c == "#" or ord(c) == 127 for c in s):
+        return False                 # ASCII whitespace / control characters and '#' are never part of a URI
+    if any(ord(c) > 126 for c in s):
+        return None                  # outside the ASCII core: judged by the URI part (C08Uri)
     comps = s.split(".")
     if pattern:
         return True
